@@ -26,12 +26,15 @@ import (
 	"verif/harness/hx"
 
 	simapp "github.com/KiraCore/sekai/app"
+	customante "github.com/KiraCore/sekai/app/ante"
 	kiratypes "github.com/KiraCore/sekai/types"
 	custodytypes "github.com/KiraCore/sekai/x/custody/types"
 	govtypes "github.com/KiraCore/sekai/x/gov/types"
 	multistakingtypes "github.com/KiraCore/sekai/x/multistaking/types"
 	tokenstypes "github.com/KiraCore/sekai/x/tokens/types"
+	dbm "github.com/cometbft/cometbft-db"
 	abci "github.com/cometbft/cometbft/abci/types"
+	"github.com/cometbft/cometbft/libs/log"
 	tmproto "github.com/cometbft/cometbft/proto/tendermint/types"
 	codectypes "github.com/cosmos/cosmos-sdk/codec/types"
 	"github.com/cosmos/cosmos-sdk/crypto/keys/ed25519"
@@ -39,6 +42,7 @@ import (
 	"github.com/cosmos/cosmos-sdk/crypto/keys/secp256k1"
 	cryptotypes "github.com/cosmos/cosmos-sdk/crypto/types"
 	multisigtypes "github.com/cosmos/cosmos-sdk/crypto/types/multisig"
+	simtestutil "github.com/cosmos/cosmos-sdk/testutil/sims"
 	sdk "github.com/cosmos/cosmos-sdk/types"
 	txtypes "github.com/cosmos/cosmos-sdk/types/tx"
 	"github.com/cosmos/cosmos-sdk/types/tx/signing"
@@ -313,12 +317,14 @@ func slotSigData(s slotT) signing.SignatureData {
 }
 
 type txPlan struct {
-	msgs   []sdk.Msg
-	slots  []slotT
-	payer  string
-	memo   string
-	victim int // index of the slot the scenario is about
-	fee    int64
+	msgs    []sdk.Msg
+	slots   []slotT
+	payer   string
+	memo    string
+	victim  int // index of the slot the scenario is about
+	fee     int64
+	timeout uint64 // body.timeout_height
+	granter string // fee.granter
 }
 
 func (h *hist) encode(p *txPlan) ([]byte, []byte, []byte) {
@@ -330,7 +336,7 @@ func (h *hist) encode(p *txPlan) ([]byte, []byte, []byte) {
 		}
 		anys = append(anys, a)
 	}
-	body := &txtypes.TxBody{Messages: anys, Memo: p.memo}
+	body := &txtypes.TxBody{Messages: anys, Memo: p.memo, TimeoutHeight: p.timeout}
 	var sis []*txtypes.SignerInfo
 	var sigs [][]byte
 	for _, s := range p.slots {
@@ -352,7 +358,7 @@ func (h *hist) encode(p *txPlan) ([]byte, []byte, []byte) {
 		}
 		sigs = append(sigs, sg)
 	}
-	ai := &txtypes.AuthInfo{SignerInfos: sis, Fee: &txtypes.Fee{Amount: sdk.NewCoins(sdk.NewInt64Coin(denom, feeOf(p))), GasLimit: 200000, Payer: p.payer}}
+	ai := &txtypes.AuthInfo{SignerInfos: sis, Fee: &txtypes.Fee{Amount: sdk.NewCoins(sdk.NewInt64Coin(denom, feeOf(p))), GasLimit: 200000, Payer: p.payer, Granter: p.granter}}
 	bodyBz, err := body.Marshal()
 	if err != nil {
 		panic(err)
@@ -481,18 +487,20 @@ func genericMsg(reg codectypes.InterfaceRegistry, url string, addr sdk.AccAddres
 // ---------------------------------------------------------------- scenario
 
 type scenario struct {
-	Msg      string `json:"msg"`                // bank_send identity two_msgs two_signers fee_payer ethereum_tx
-	Mode     string `json:"mode"`               // direct amino eip712 raw-eth other
-	Attach   string `json:"attach"`             // none right wrong ed
-	Acct     string `json:"acct"`               // new onrecord eth-new eth-onrecord missing
-	Strategy string `json:"strategy"`           // see strategies
-	Follow   string `json:"follow"`             // none replay next-replay resequence
-	TypeURL  string `json:"type_url,omitempty"` // msg = any: the registered message type used
-	Env      string `json:"env,omitempty"`      // mode switches of the ante chain: "" (healthy) weak custody execfee freeze
+	Msg         string `json:"msg"`                    // bank_send identity two_msgs two_signers fee_payer ethereum_tx
+	Mode        string `json:"mode"`                   // direct amino eip712 raw-eth other
+	Attach      string `json:"attach"`                 // none right wrong ed
+	Acct        string `json:"acct"`                   // new onrecord eth-new eth-onrecord missing
+	Strategy    string `json:"strategy"`               // see strategies
+	Follow      string `json:"follow"`                 // none replay next-replay resequence
+	TypeURL     string `json:"type_url,omitempty"`     // msg = any: the registered message type used
+	ChainDigest bool   `json:"chain_digest,omitempty"` // eip712: the wallet signs the digest the CHAIN's own exported function computes (not the documented one)
+	BAcct       string `json:"b_acct,omitempty"`       // state of the second account B (default onrecord): new eth-new eth-onrecord
+	Env         string `json:"env,omitempty"`          // mode switches of the ante chain: "" (healthy) weak custody execfee freeze
 }
 
 var strategies = []string{"honest", "attacker-key", "bitflip", "seq-plus", "seq-minus", "signed-seq-plus", "chain", "othermsg", "accnum",
-	"empty-sig", "feepayer-unsigned", "rewrap-fee", "rewrap-append", "rewrap-prepend", "rewrap-replace", "rewrap-dup", "rewrap-reorder", "multi-one-sig", "eth-forged-sender", "eth-feepayer-unsigned", "eth-wrong-nonce", "eth-wrong-chain", "eth-unprotected", "swap-slots"}
+	"empty-sig", "fee-granter", "accnum-zero", "rewrap-timeout", "feepayer-unsigned", "rewrap-fee", "rewrap-append", "rewrap-prepend", "rewrap-replace", "rewrap-dup", "rewrap-reorder", "multi-one-sig", "eth-forged-sender", "eth-feepayer-unsigned", "eth-wrong-nonce", "eth-wrong-chain", "eth-unprotected", "swap-slots"}
 
 func (s scenario) label() string {
 	return fmt.Sprintf("%s:%s:%s:%s:%s", s.Msg, s.Mode, s.Acct, s.Attach, s.Strategy)
@@ -623,6 +631,8 @@ func (h *hist) build(sc scenario, r *hx.Rng, A, B *acctT, attacker *keyT, edKey 
 				p.fee = c.fee
 			}
 		}
+	case "repeat_msgs": // the same message type several times
+		p.msgs = []sdk.Msg{banktypes.NewMsgSend(A.addr, recipient, amount), banktypes.NewMsgSend(A.addr, recipient, amount.Add(sdk.NewInt64Coin(denom, 1))), banktypes.NewMsgSend(A.addr, recipient, amount)}
 	case "two_msgs":
 		p.msgs = []sdk.Msg{banktypes.NewMsgSend(A.addr, recipient, amount), idMsg(A)}
 	case "two_signers":
@@ -647,8 +657,8 @@ func (h *hist) build(sc scenario, r *hx.Rng, A, B *acctT, attacker *keyT, edKey 
 		signers = []*acctT{A, B}
 	}
 	p.victim = victim
-	if h.env == "execfee" && p.fee < 1000 {
-		p.fee = 1000 // the execution-fee table demands a prepaid fee
+	if h.env == "execfee" && p.fee < 4000 {
+		p.fee = 4000 // the execution-fee table demands a prepaid fee per message (500 each; re-wrapped lists are longer)
 	}
 	sp := signParams{key: A.key, slotSeq: aseq, signSeq: aseq, chain: h.w.ctx().ChainID(), accnum: anum}
 	ethKey := A.key  // key signing the raw Ethereum transaction
@@ -696,7 +706,13 @@ func (h *hist) build(sc scenario, r *hx.Rng, A, B *acctT, attacker *keyT, edKey 
 		ethChain = 1
 	case "eth-unprotected":
 		unprotected = true
-	case "swap-slots", "feepayer-unsigned", "rewrap-fee", "multi-one-sig", "rewrap-append", "rewrap-prepend", "rewrap-replace", "rewrap-dup", "rewrap-reorder":
+	case "fee-granter":
+		p.granter = B.addr.String() // B is to pay the fee without signing anything
+	case "payer-uppercase":
+		p.payer = strings.ToUpper(A.addr.String()) // the signer named again as fee payer, in another spelling
+	case "accnum-zero":
+		sp.accnum = 0
+	case "rewrap-timeout", "swap-slots", "feepayer-unsigned", "rewrap-fee", "multi-one-sig", "rewrap-append", "rewrap-prepend", "rewrap-replace", "rewrap-dup", "rewrap-reorder":
 	default:
 		panic("strategy " + sc.Strategy)
 	}
@@ -820,6 +836,14 @@ func (h *hist) build(sc scenario, r *hx.Rng, A, B *acctT, attacker *keyT, edKey 
 			d, err := eip712Digest(m, sp.signSeq, ch)
 			if err != nil {
 				panic(err)
+			}
+			if sc.ChainDigest && sc.Strategy != "chain" {
+				// a wallet built against the running chain: whatever the chain's function hashes is what gets signed
+				hx.Try(func() {
+					if cd, cerr := customante.GenEIP712SignBytesFromMsg(m, sp.signSeq); cerr == nil && len(cd) == 32 {
+						d = cd
+					}
+				})
 			}
 			sig = sp.key.ethSign(d)
 		case "raw-eth":
@@ -983,10 +1007,13 @@ func (h *hist) describe(p *txPlan, bz []byte) (string, []string) {
 // independently from the documented rule: on a weak network (fewer validators than min_validators) only
 // bond-denom sends up to poor_network_max_bank_send and the listed governance messages are allowed.
 func (h *hist) envRejects(p *txPlan) bool {
-	if h.env != "weak" {
+	ctx := h.w.ctx()
+	if p.granter != "" {
+		return true // the application installs no fee-grant keeper: a named granter is refused
+	}
+	if h.w.app.CustomStakingKeeper.IsNetworkActive(ctx) {
 		return false
 	}
-	ctx := h.w.ctx()
 	props := h.w.app.CustomGovKeeper.GetNetworkProperties(ctx)
 	allowed := h.w.app.CustomGovKeeper.GetPoorNetworkMessages(ctx)
 	for _, m := range p.msgs {
@@ -1070,6 +1097,7 @@ func main() {
 		kX, kE *keyT
 	}
 	var queue []*pending
+	var deferred, deferredFallback []func()
 	firstAccepted := map[int]bool{}
 	nextID := 0
 	newHist := func(id int) *hist {
@@ -1161,7 +1189,17 @@ func main() {
 			ownerKey = h.multiKey
 		}
 		A := h.setupAccount("A", ownerKey, sc.Acct, uint64(r.Intn(4)))
-		B := h.setupAccount("B", kB, "onrecord", uint64(r.Intn(3)))
+		bAcct := sc.BAcct
+		if bAcct == "" {
+			bAcct = "onrecord"
+		}
+		bSeq := uint64(r.Intn(3))
+		if sc.BAcct != "" {
+			if ex, _, sq := h.accState(A); ex {
+				bSeq = sq // same sequence as A: a raw Ethereum nonce made for A also fits B
+			}
+		}
+		B := h.setupAccount("B", kB, bAcct, bSeq)
 		if sc.Env == "custody" {
 			for _, a := range []*acctT{A, B} {
 				if a.state != "missing" {
@@ -1205,7 +1243,16 @@ func main() {
 			p = &q2
 			bz, _, _ = h.encode(p)
 		}
-		if strings.HasPrefix(sc.Strategy, "rewrap-") && sc.Strategy != "rewrap-fee" {
+		if sc.Strategy == "rewrap-timeout" {
+			// only the timeout height of the body is changed under the same signatures
+			t1, _ := h.describe(p, bz)
+			checkTxCoq = "(Some (" + t1 + "))"
+			q2 := *p
+			q2.timeout = uint64(w.height) + 100000
+			p = &q2
+			bz, _, _ = h.encode(p)
+		}
+		if strings.HasPrefix(sc.Strategy, "rewrap-") && sc.Strategy != "rewrap-fee" && sc.Strategy != "rewrap-timeout" {
 			// CheckTx sees the transaction as its signer made it; DeliverTx gets the SAME signature slots, fee and
 			// memo around a CHANGED message list (the extra message moves the signer's funds to the attacker)
 			t1, _ := h.describe(p, bz)
@@ -1283,40 +1330,71 @@ func main() {
 			resequence()
 			honestNext(1)
 			resequence()
-		}
-		var apk []string
-		for _, k := range h.keys {
-			apk = append(apk, fmt.Sprintf("(%s, %d)", k.coq(), h.addr(k.caddr)))
-		}
-		coq = append(coq, fmt.Sprintf("mkHist %s (mkTabs %s %s %s %s) %s %s %s %s",
-			hx.B(w.ctx().BlockHeight() == 0), hx.List(apk), hx.List(h.verL), hx.List(h.recL), hx.List(h.ethL), hx.Z(int64(h.check)), checkTxCoq, h.init, hx.List(h.steps)))
-		kind := "rejected"
-		if accepted[0] {
-			kind = "accepted"
-		}
-		firstAccepted[h.id] = accepted[0]
-		accs := []map[string]interface{}{}
-		for _, a := range h.accts {
-			accs = append(accs, map[string]interface{}{"name": a.name, "id": h.addr(a.addr), "addr": a.addr.String(), "style": a.style, "state": a.state})
-		}
-		js = append(js, jhist{Scenario: sc, Kind: kind, Keys: map[string]string{"A": h.keys[0].seed, "B": h.keys[1].seed, "attacker": kX.seed, "ed25519": kE.seed}, Accounts: accs, Steps: h.jsteps, Accepted: accepted,
-			CheckTx: map[string]interface{}{"code": cres.Code, "log": short(cres.Log), "panic": cpn, "tx_hex": hex.EncodeToString(checkBz)}})
-		dist.Inc("first:" + kind)
-		dist.Inc(fmt.Sprintf("checktx-class:%d", h.check))
-		dist.Inc("msg:" + sc.Msg)
-		if sc.TypeURL != "" {
-			dist.Inc("type:" + sc.TypeURL)
-		}
-		dist.Inc("mode:" + sc.Mode)
-		dist.Inc("acct:" + sc.Acct)
-		dist.Inc("attach:" + sc.Attach)
-		dist.Inc("follow:" + sc.Follow)
-		dist.Inc("env:" + map[bool]string{true: "healthy", false: sc.Env}[sc.Env == ""] + ":" + kind)
-		dist.Inc("strategy:" + sc.Strategy + ":" + kind)
-		for i, a := range accepted {
-			if i > 0 {
-				dist.Inc("followup:" + map[bool]string{true: "accepted", false: "rejected"}[a])
+		case "replay-weak":
+			// settings changed mid-history: the network turns weak after step 0; replay, honest follow-up, replay; back
+			gk := w.app.CustomGovKeeper
+			flip := func(n uint64) {
+				props := gk.GetNetworkProperties(w.ctx())
+				props.MinValidators = n
+				if err := gk.SetNetworkProperties(w.ctx(), props); err != nil {
+					panic(err)
+				}
 			}
+			cur := gk.GetNetworkProperties(w.ctx()).MinValidators
+			flip(77)
+			accepted = append(accepted, h.step(p, bz, "replay of step 0 on a network that turned weak"))
+			honestNext(1)
+			accepted = append(accepted, h.step(p, bz, "replay of step 0 (weak network)"))
+			flip(cur)
+			accepted = append(accepted, h.step(p, bz, "replay of step 0 after the network recovered"))
+		}
+		finalize := func() {
+			var apk []string
+			for _, k := range h.keys {
+				apk = append(apk, fmt.Sprintf("(%s, %d)", k.coq(), h.addr(k.caddr)))
+			}
+			coq = append(coq, fmt.Sprintf("mkHist %s (mkTabs %s %s %s %s) %s %s %s %s",
+				hx.B(w.ctx().BlockHeight() == 0), hx.List(apk), hx.List(h.verL), hx.List(h.recL), hx.List(h.ethL), hx.Z(int64(h.check)), checkTxCoq, h.init, hx.List(h.steps)))
+			kind := "rejected"
+			if accepted[0] {
+				kind = "accepted"
+			}
+			firstAccepted[h.id] = accepted[0]
+			accs := []map[string]interface{}{}
+			for _, a := range h.accts {
+				accs = append(accs, map[string]interface{}{"name": a.name, "id": h.addr(a.addr), "addr": a.addr.String(), "style": a.style, "state": a.state})
+			}
+			js = append(js, jhist{Scenario: sc, Kind: kind, Keys: map[string]string{"A": h.keys[0].seed, "B": h.keys[1].seed, "attacker": kX.seed, "ed25519": kE.seed}, Accounts: accs, Steps: h.jsteps, Accepted: accepted,
+				CheckTx: map[string]interface{}{"code": cres.Code, "log": short(cres.Log), "panic": cpn, "tx_hex": hex.EncodeToString(checkBz)}})
+			dist.Inc("first:" + kind)
+			dist.Inc(fmt.Sprintf("checktx-class:%d", h.check))
+			dist.Inc("msg:" + sc.Msg)
+			if sc.TypeURL != "" {
+				dist.Inc("type:" + sc.TypeURL)
+			}
+			dist.Inc("mode:" + sc.Mode)
+			dist.Inc("acct:" + sc.Acct)
+			dist.Inc("attach:" + sc.Attach)
+			dist.Inc("follow:" + sc.Follow)
+			dist.Inc("env:" + map[bool]string{true: "healthy", false: sc.Env}[sc.Env == ""] + ":" + kind)
+			dist.Inc("strategy:" + sc.Strategy + ":" + kind)
+			for i, a := range accepted {
+				if i > 0 {
+					dist.Inc("followup:" + map[bool]string{true: "accepted", false: "rejected"}[a])
+				}
+			}
+		}
+		if sc.Follow == "export-import" {
+			// continued after the whole application state has been exported and imported into a fresh application
+			deferred = append(deferred, func() {
+				accepted = append(accepted, h.step(p, bz, "replay of step 0 after genesis export / import"))
+				honestNext(2)
+				accepted = append(accepted, h.step(p, bz, "replay of step 0 (imported chain)"))
+				finalize()
+			})
+			deferredFallback = append(deferredFallback, finalize)
+		} else {
+			finalize()
 		}
 	}
 	flush := func() {
@@ -1384,12 +1462,12 @@ func main() {
 		return id
 	}
 
-	msgsK := []string{"bank_send", "identity", "any", "any", "any", "two_msgs", "two_signers", "fee_payer", "ethereum_tx"}
+	msgsK := []string{"bank_send", "identity", "any", "any", "any", "two_msgs", "repeat_msgs", "two_signers", "fee_payer", "ethereum_tx"}
 	modes := []string{"direct", "amino", "eip712", "raw-eth", "other", "multi-direct", "multi-amino"}
 	attaches := []string{"none", "right", "wrong", "ed"}
 	accts := []string{"new", "onrecord", "eth-new", "eth-onrecord"}
 	acctsAll := []string{"new", "onrecord", "eth-new", "eth-onrecord", "multisig-new", "multisig-onrecord"}
-	follows := []string{"none", "replay", "next-replay", "resequence"}
+	follows := []string{"none", "replay", "next-replay", "resequence", "replay-weak"}
 
 	// ---- probes: which variant of the code is running (model selection; the whole run must then
 	// agree with that variant).  Both use an eth-style account with its key on record.
@@ -1447,6 +1525,9 @@ func main() {
 					f = "resequence"
 				}
 				run(scenario{Msg: m, Mode: md, Attach: at, Acct: ac, Strategy: st, Follow: f})
+				if md == "eip712" && strings.HasPrefix(ac, "eth-") {
+					run(scenario{Msg: m, Mode: md, Attach: at, Acct: ac, Strategy: st, Follow: f, ChainDigest: true})
+				}
 			}
 		}
 	}
@@ -1511,6 +1592,47 @@ func main() {
 			run(scenario{Msg: "any", TypeURL: "/kira.gov.MsgVoteProposal", Mode: md, Attach: "wrong", Acct: ac, Strategy: "attacker-key", Follow: "replay", Env: env})
 		}
 	}
+	// ---- systematic part 5d: several signers / separate fee payer / fee granter in every signing scheme, the SECOND
+	// account in every state (a key-less or Ethereum-style fee payer goes through the Ethereum path too)
+	for _, md := range []string{"direct", "amino", "eip712", "raw-eth", "multi-direct"} {
+		for _, bac := range []string{"", "new", "eth-new", "eth-onrecord"} {
+			ac, m := "onrecord", "bank_send"
+			switch md {
+			case "eip712":
+				ac = "eth-onrecord"
+			case "raw-eth":
+				ac, m = "eth-onrecord", "ethereum_tx"
+			case "multi-direct":
+				ac = "multisig-onrecord"
+			}
+			fp := "feepayer-unsigned"
+			if md == "raw-eth" {
+				fp = "eth-feepayer-unsigned"
+			}
+			for _, st := range []string{"honest", fp, "fee-granter"} {
+				run(scenario{Msg: m, Mode: md, Attach: "none", Acct: ac, Strategy: st, Follow: "replay", BAcct: bac})
+			}
+			if md != "raw-eth" {
+				for _, mk := range []string{"fee_payer", "two_signers", "repeat_msgs"} {
+					run(scenario{Msg: mk, Mode: md, Attach: "right", Acct: ac, Strategy: "honest", Follow: "replay-weak", BAcct: bac})
+					run(scenario{Msg: mk, Mode: md, Attach: "right", Acct: ac, Strategy: "attacker-key", Follow: "replay", BAcct: bac})
+				}
+			}
+			for _, st := range []string{"rewrap-timeout", "accnum-zero", "accnum", "chain", "seq-plus", "signed-seq-plus"} {
+				run(scenario{Msg: m, Mode: md, Attach: "right", Acct: ac, Strategy: st, Follow: "replay-weak", BAcct: bac})
+			}
+		}
+	}
+	// ---- systematic part 5e: histories that continue after a genesis export / import
+	for _, md := range []string{"direct", "amino", "eip712", "raw-eth", "multi-direct"} {
+		for _, ac := range acctsAll {
+			m := "bank_send"
+			if md == "raw-eth" {
+				m = "ethereum_tx"
+			}
+			run(scenario{Msg: m, Mode: md, Attach: "right", Acct: ac, Strategy: "honest", Follow: "export-import"})
+		}
+	}
 	// ---- systematic part 6: multisig keys and MultiSignatureData
 	for _, md := range []string{"multi-direct", "multi-amino", "direct", "eip712"} {
 		for _, ac := range []string{"multisig-new", "multisig-onrecord", "onrecord", "eth-onrecord"} {
@@ -1531,6 +1653,12 @@ func main() {
 		if r.Chance(3) {
 			sc.Acct = "missing"
 		}
+		if sc.Mode == "eip712" && r.Chance(50) {
+			sc.ChainDigest = true
+		}
+		if r.Chance(30) {
+			sc.BAcct = []string{"new", "eth-new", "eth-onrecord"}[r.Intn(3)]
+		}
 		if r.Chance(45) {
 			sc.Env = []string{"weak", "custody", "execfee", "freeze"}[r.Intn(4)]
 		}
@@ -1549,6 +1677,35 @@ func main() {
 		run(sc)
 	}
 	flush()
+	// ---- genesis export / import mid-history: sequences, keys and account numbers must survive
+	exportImport := "not run"
+	if len(deferred) > 0 {
+		var state []byte
+		pn := hx.Try(func() {
+			w.endBlock()
+			ex, err := w.app.ExportAppStateAndValidators(false, nil)
+			if err != nil {
+				panic(err)
+			}
+			state = ex.AppState
+			napp := simapp.NewInitApp(log.NewNopLogger(), dbm.NewMemDB(), nil, true, map[int64]bool{}, simapp.DefaultNodeHome, 5, simapp.MakeEncodingConfig(), simtestutil.EmptyAppOptions{})
+			napp.InitChain(abci.RequestInitChain{Validators: []abci.ValidatorUpdate{}, ConsensusParams: simtestutil.DefaultConsensusParams, AppStateBytes: state})
+			w.app = napp
+			w.height = 0
+			w.beginBlock()
+		})
+		if pn == "" {
+			exportImport = fmt.Sprintf("ok: %d bytes of app state, %d histories continued on the imported chain", len(state), len(deferred))
+			for _, f := range deferred {
+				f()
+			}
+		} else {
+			exportImport = "FAILED: " + short(pn)
+			for _, f := range deferredFallback {
+				f()
+			}
+		}
+	}
 	forgedAccepted, unsignedPayerAccepted := firstAccepted[probe1], firstAccepted[probe2]
 	eipBatched, rawBatched := firstAccepted[probe3], firstAccepted[probe4]
 	variant := fmt.Sprintf("(mkVariant %s %s %s %s)", hx.B(!forgedAccepted), hx.B(!unsignedPayerAccepted), hx.B(!eipBatched), hx.B(!rawBatched))
@@ -1560,7 +1717,7 @@ func main() {
 	out.WriteFile("cases.txt", strings.Join(coq, "\n")+"\n")
 	out.WriteJSON("meta.json", map[string]string{"case_type": "c02_case", "mismatch_fn": "c02_mismatches code_variant", "violation_fn": "c02_violations"})
 	out.WriteJSON("cases.json", js)
-	out.WriteJSON("dist.json", map[string]interface{}{"seed": seed, "histories": len(js), "by": dist, "message_types_used": len(catalogue), "message_types_skipped": catalogueSkipped, "code_variant": map[string]bool{"raw_eth_sender_checked": !forgedAccepted, "eth_path_continues_with_remaining_signers": !unsignedPayerAccepted,
+	out.WriteJSON("dist.json", map[string]interface{}{"seed": seed, "histories": len(js), "by": dist, "export_import": exportImport, "message_types_used": len(catalogue), "message_types_skipped": catalogueSkipped, "code_variant": map[string]bool{"raw_eth_sender_checked": !forgedAccepted, "eth_path_continues_with_remaining_signers": !unsignedPayerAccepted,
 		"eip712_single_message_rule": !eipBatched, "raw_eth_single_message_rule": !rawBatched}})
 	fmt.Fprintf(os.Stderr, "c02: %d histories\n", len(js))
 }
